@@ -178,6 +178,9 @@ func (gz *GzipDecompressor) ParseFooter(p []byte) (blobPayloadSize, tocOffset, t
 	if slen := binary.LittleEndian.Uint16(subfieldlen); slen != uint16(16+len("STARGZ")) {
 		return 0, 0, 0, fmt.Errorf("invalid length of subfield %d; want %d", slen, 16+len("STARGZ"))
 	}
+	if len(subfield) != 16+len("STARGZ") {
+		return 0, 0, 0, fmt.Errorf("invalid length of subfield data %d; want %d", len(subfield), 16+len("STARGZ"))
+	}
 	if string(subfield[16:]) != "STARGZ" {
 		return 0, 0, 0, fmt.Errorf("STARGZ magic string must be included in the footer subfield")
 	}
